@@ -32,12 +32,13 @@ type C18Case struct {
 	Env        bool     `json:"env,omitempty"`
 	DensePre   int      `json:"dense_prefill,omitempty"` // tensor pool pre-filled to this many entries (PoolSize-1 / PoolSize reach the pool-full branches)
 	Big        bool     `json:"big,omitempty"`           // shared and private tensors may have up to 2^17 elements (2^15 in the race build)
+	Micro      bool     `json:"micro,omitempty"`         // contention run: 3-4 clients, a few scalar operations each on tensors of different element sizes
 }
 
 type C18Stats struct {
 	Runs, Ops, Yields, Switches, SwitchesInOp uint64
 	SeqSkips, SoloSharedMut, SoloUnterminated uint64
-	TapeFull, BigRuns                         uint64
+	TapeFull, BigRuns, MicroRuns              uint64
 	Unreproducible                            uint64
 	Strategies                                map[string]uint64
 	Families                                  map[string]uint64
@@ -195,6 +196,11 @@ func soloRun(cs *C18Case, c int, gen *RNG, length int, adversarial bool, st *C18
 				op = g.Next()
 			}
 			op.Fam = "lifecycle"
+		} else if g != nil && cs.Micro {
+			op = microOp(gen, g, k)
+			if gen.Intn(2) == 0 {
+				op.Adv = gen.Next() | 1
+			}
 		} else if g != nil {
 			op = g.Next()
 			if gen.Intn(8) > 0 {
@@ -279,7 +285,7 @@ func concRun(cs *C18Case, sr *RNG, replay bool, st *C18Stats) *concResult {
 		if c18SoloYields > expect {
 			expect = c18SoloYields // measured while the programs ran alone (large tensors: millions of statements)
 		}
-		cs.Strategy = S.SetupRandom(sr, n, expect)
+		cs.Strategy = S.SetupRandom(sr, n, expect, cs.Micro)
 	}
 	if !raceEnabled {
 		init0 := sharedHashes(shared, true)
@@ -422,6 +428,14 @@ func genC18(seed uint64, tier string, st *C18Stats) *C18Case {
 		cs.Big = true
 		cs.Clients = 2 + r.Intn(2)
 	}
+	if !cs.Big && r.Intn(8) == 0 {
+		// contention runs: very short programs that all go through the same internal tables (scalar buffers of
+		// different sizes, the ints pools, the tensor pool), scheduled at synchronisation statements: thousands of
+		// them fit into the time of one ordinary run, which is what windows of several preemptions need
+		cs.Micro = true
+		cs.Clients = 3 + r.Intn(2)
+		cs.DensePre = 0
+	}
 	sr := r.Fork(0x5e7)
 	cs.Setup = genSetup(&sr, cs.Big)
 	cs.Programs = make([][]Op, cs.Clients)
@@ -449,6 +463,9 @@ func execC18(cs *C18Case, tier string, replay bool, st *C18Stats) (*Violation, u
 			}
 			length = 3 + g.Intn(maxLen)
 			if cs.Big {
+				length = 2 + g.Intn(4)
+			}
+			if cs.Micro {
 				length = 2 + g.Intn(4)
 			}
 		}
@@ -490,6 +507,9 @@ func execC18(cs *C18Case, tier string, replay bool, st *C18Stats) (*Violation, u
 	if st != nil {
 		if cs.Big {
 			st.BigRuns++
+		}
+		if cs.Micro {
+			st.MicroRuns++
 		}
 		st.Runs++
 		st.Clients[cs.Clients]++
@@ -807,7 +827,7 @@ func workC18(res *WorkerResult, start time.Time) {
 	res.Distinct = keysOf(st.Sigs)
 	res.Stats = map[string]interface{}{
 		"runs": st.Runs, "ops": st.Ops, "yields": st.Yields, "switches": st.Switches, "switches_in_op": st.SwitchesInOp,
-		"seq_skips": st.SeqSkips, "solo_shared_mutations": st.SoloSharedMut, "solo_unterminated": st.SoloUnterminated, "tape_overflow_skips": st.TapeFull, "runs_with_large_tensors": st.BigRuns, "unreproducible_mismatches": st.Unreproducible, "strategies": st.Strategies,
+		"seq_skips": st.SeqSkips, "solo_shared_mutations": st.SoloSharedMut, "solo_unterminated": st.SoloUnterminated, "tape_overflow_skips": st.TapeFull, "runs_with_large_tensors": st.BigRuns, "contention_runs": st.MicroRuns, "unreproducible_mismatches": st.Unreproducible, "strategies": st.Strategies,
 		"families": st.Families, "op_names": st.OpNames, "pool": st.Pool, "distinct_schedule_signatures": len(st.Sigs),
 		"clients": st.Clients, "races": st.Races, "deadlocks": st.Deadlocks, "finalizers_fired": st.FinalizersFired,
 		"max_yields_in_a_run": st.MaxYields, "samples": st.Samples,
@@ -926,4 +946,32 @@ func minimiseRace(cs *C18Case, budget int) *C18Case {
 		}
 	}
 	return best
+}
+
+// microOp: the k-th operation of a contention program - first a small private tensor of an element type of the
+// client's own choosing, then operations with a Go scalar on it (each borrows and returns a scalar buffer of the
+// element's size, an OpOpt and shape slices) and now and then a ReturnTensor of a result.
+func microOp(r *RNG, g *Gen, k int) Op {
+	w := g.w
+	first := w.nshared
+	if k == 0 || w.get(first) == nil {
+		for len(w.slots) < first {
+			w.slots = append(w.slots, nil)
+		}
+		dt := []string{"float64", "float32", "int8", "int16", "complex128", "int32", "float64", "uint8"}[r.Intn(8)]
+		op := Op{Name: "New", S: dt, I: []int{1 + r.Intn(3)}, Out: g.newSlot(), F: float64(r.Intn(50)), Fam: "construct"}
+		return op
+	}
+	a := first
+	if n := len(w.slots); n > first+1 && r.Intn(3) == 0 {
+		if x := first + r.Intn(n-first); w.get(x) != nil {
+			a = x
+		}
+	}
+	if a != first && r.Intn(4) == 0 {
+		return Op{Name: "ReturnTensor", In: []int{a}, Out: -1, Fam: "lifecycle"}
+	}
+	names := []string{"Add", "Sub", "Mul", "Lt", "Gt", "ElEq"}
+	op := Op{Name: names[r.Intn(len(names))], In: []int{a}, Out: g.newSlot(), F: float64(1 + r.Intn(3)), Form: []string{"vs", "sv"}[r.Intn(2)], Fam: "arith"}
+	return op
 }
